@@ -1312,7 +1312,7 @@ class Engine(object):
                 return r
         if (isinstance(node.func, ast.Name) and node.func.id in ("any", "all") and len(node.args) == 1
                 and isinstance(node.args[0], ast.GeneratorExp) and len(node.args[0].generators) == 1
-                and not node.args[0].generators[0].ifs and node.func.id not in st.env):
+                and node.func.id not in st.env):
             g = node.args[0].generators[0]
             r = self.ev(g.iter, st)
             if len(r) == 1 and isinstance(r[0][1], SeqV) and self.static_items(r[0][1]) is None:
@@ -1325,10 +1325,18 @@ class Engine(object):
                 el, facts = seqs.seq_get(SeqV(sq.length, sq.elem, sq.arrs, sq.kind, 0), J)
                 s_in = self.assign(g.target, el, s1.assume(*facts, j >= 0, j < to_int_term(sq.length)))
                 n_obl = len(self.obligations)
-                rb = self.ev(node.args[0].elt, s_in)
+                filt = []
+                ok_f = True
+                for cnode in g.ifs:
+                    rc = self.ev(cnode, s_in)
+                    if len(rc) != 1 or isinstance(rc[0][1], Raised):
+                        ok_f = False
+                        break
+                    filt.append(ops._tb(truth(rc[0][1])))
+                rb = self.ev(node.args[0].elt, s_in) if ok_f else []
                 if len(rb) == 1 and not isinstance(rb[0][1], Raised) and len(self.obligations) == n_obl:
                     body = ops._tb(truth(rb[0][1]))
-                    extra = [f for f in rb[0][0].pc[len(s_in.pc):]]
+                    extra = [f for f in rb[0][0].pc[len(s_in.pc):]] + filt
                     rng = z3.And(j >= 0, j < to_int_term(sq.length), *facts)
                     if node.func.id == "any":
                         val = z3.Exists([J], z3.And(rng, *extra, body))
